@@ -23,6 +23,7 @@ RULE += ' Round 6: 16-bit addressing runs on the CPU as well (the tracee maps lo
 RULE += ' Round 7: 16-bit code-segment twins: every register-only row is also decoded with attrib opmode/admode u16 from the bytes that mean the same instruction there (66 removed or added); its lifted semantics must agree, on generated states, with the 32-bit decoding that the CPU comparison covers.'
 RULE += ' Round 8: segment registers pushed without prefix, under 66 and under 67 (esp and the written window compared, not the selector); rows that carry their own bytes for a size prefix given twice (67 67, 66 66, 66 67 66) on memory, string, xlat and loop forms; the 16-bit code-segment twins now include the memory-operand rows (66 and 67 both exchanged) and compare written memory.'
 RULE += ' Round 9: bit-string forms are keyed by the class of the run-time bit offset (negative, inside the operand, beyond it).'
+RULE += ' Round 10: the table rows are also EXECUTED in a 16-bit code segment (the tracee installs an LDT code descriptor with D=0 over the flat address space; stack and data segments stay flat 32-bit): the bytes that mean the row there (66 and 67 exchanged; loop/jcxz count register follows 67) are decoded with attrib opmode/admode u16 at the code address, lifted and compared with one CPU step - registers, flags, memory, pushed return addresses, and the instruction pointer including its truncation to 16 bits by transfers with 16-bit operand size; stack, call/ret/jmp/jcc/loop, enter/leave rows included (keys cs16/...).'
 RULE += " Round 9: far returns (retf, retf n, with and without 66) to the tracee's own code selector; eip, esp and cs compared."
 ASSUMPTIONS = ['the host CPU (single-stepped through Linux ptrace) is "an x86 processor"; faulting steps are excluded', 'the table of architecturally undefined results below is transcribed from the SDM',
                'vf/irsem.py gives the standard bit-vector meaning of the IR; memory is flat (segment annotations ignored)',
@@ -479,10 +480,12 @@ def lifted_outcome(ins, regs, flags, hot, hb=None):
     return new, writes, env.reads
 
 
-def compare_case(sh, inst, code, ins, regs, flags, hot, cpu):
+def compare_case(sh, inst, code, ins, regs, flags, hot, cpu, keyprefix=''):
     """Returns True if compared (non-trivial)."""
     mn = inst['mn']
     wit = {'text': inst['text'], 'code': code.hex(), 'regs': regs, 'flags': flags, 'hot': hot.hex()}
+    if keyprefix:
+        wit['cs16'] = True
     # mechanism key: mnemonic family / operand size / destination kind (register or memory form); the operand *form* detail stays in the witness
     dkind = 'm' if inst['form'].startswith('m') else ('r' if inst['form'][:1] in ('r', 'a') else inst['form'])
     if '+67' in inst['form']:
@@ -584,10 +587,11 @@ def compare_case(sh, inst, code, ins, regs, flags, hot, cpu):
             key = '%s/%s/%s' % (fam + ('+67' if dkind.endswith('+67') else ('+16addr' if dkind.endswith('+16addr') else '')), loc, cls)          # flag formulas do not depend on operand size or form
         else:
             key = '%s/%s/%s' % (keybase, loc, cls)
+        key = keyprefix + key
         if key in seen:
             continue
         seen.add(key)
-        sh.violation(key, '%s (%s): %s [state eax=%08x ecx=%08x edx=%08x ebx=%08x flags=%s]' % (inst['text'], code.hex(), detail, regs['eax'], regs['ecx'], regs['edx'], regs['ebx'],
+        sh.violation(key, ('in a 16-bit code segment: ' if keyprefix else '') + '%s (%s): %s [state eax=%08x ecx=%08x edx=%08x ebx=%08x flags=%s]' % (inst['text'], code.hex(), detail, regs['eax'], regs['ecx'], regs['edx'], regs['ebx'],
                                                                                           ''.join(f for f in ('cf', 'pf', 'af', 'zf', 'nf', 'of', 'df') if flags[f])), wit)
     return True
 
@@ -596,15 +600,22 @@ NPARTS = 64
 
 
 def shards(tier, seed):
-    return [('p', p) for p in range(NPARTS)] + [('mode16', 0)]
+    return [('p', p) for p in range(NPARTS)] + [('mode16', 0)] + [('cs16', p) for p in range(NCS16)]
 
 
-def mode_twins():
+NCS16 = 16
+
+
+def mode_twins(flow=False):
     """(instance, bytes for a 32-bit code segment, bytes for a 16-bit code segment) of register-only and implicit-operand rows:
     the operand-size prefix means the opposite in the other configuration (dis(..., {'opmode': u16, 'admode': u16})), so
     X under 66 in 32-bit code and X without prefix in 16-bit code are one instruction, and so are X and 66 X."""
     out = []
-    rows = [i for i in instances() if not i['extra'].get('stack') and not i['extra'].get('branch') and not i['extra'].get('code') and 'addr16' not in i['text'] and i['mn'] not in ('enter', 'leave')]
+    rows = [i for i in instances() if not i['extra'].get('code') and 'addr16' not in i['text']]
+    if flow:
+        rows = [i for i in rows if not i['extra'].get('farret')]
+    else:
+        rows = [i for i in rows if not i['extra'].get('stack') and not i['extra'].get('branch') and i['mn'] not in ('enter', 'leave')]
     asm = assemble(rows)
     for inst, (g, msg) in zip(rows, asm):
         if not g:
@@ -614,6 +625,8 @@ def mode_twins():
             k += 1
         pre, rest = list(g[:k]), g[k:]
         uses_mem = bool(inst['bases'] or inst['idx'] or inst['extra'].get('low') or inst['extra'].get('string') or inst['extra'].get('xlat') or '[' in inst['text'])
+        if flow and (inst['cls'] == 'ecx-class' or re.match(r'^(loop|j.?cxz)', inst['mn'])):
+            uses_mem = True      # the count register of loop/jcxz follows the address size
         # operand size: 66 means the opposite; address size (only relevant with a memory operand): 67 means the opposite
         p16 = [b_ for b_ in pre if b_ not in (0x66, 0x67)]
         if 0x66 not in pre:
@@ -696,6 +709,56 @@ def run_mode16(sh, tier, seed):
             sh.violation('mode16/%s/%d/%s' % (fam, inst['size'], bad[0]), '%s: %s in a 32-bit code segment and %s in a 16-bit one are the same instruction, but %s' % (inst['text'], b32.hex(), b16.hex(), bad[1]), wit)
 
 
+def run_cs16(sh, part, tier, seed, only=None):
+    """The table rows executed for real in a 16-bit code segment (LDT selector installed by the tracee; flat 32-bit stack and
+    data segments): the bytes that mean the row's instruction there (66 / 67 exchanged) are decoded with attrib opmode/admode
+    u16 at the code address, lifted, and compared with one CPU step as in the 32-bit configuration."""
+    from miasmx.arch.ia32_arch import x86mnemo
+    from miasmx.arch.ia32_reg import x86_afs
+    from miasmx.core.bin_stream import bin_stream
+    tw = [t for j, t in enumerate(mode_twins(flow=True)) if j % NCS16 == part or only]
+    cases = []
+    meta = []
+    nstates = 8 if tier == 'quick' else 96
+    for inst, b32, b16 in tw:
+        if only and inst['text'] != only:
+            continue
+        if len(b16) > 15:
+            continue
+        try:
+            ins = x86mnemo.dis(bin_stream(Virt(O.CODE_ADDR, b16), O.CODE_ADDR), {'opmode': x86_afs.u16, 'admode': x86_afs.u16})
+        except Exception:
+            ins = None
+        if ins is None or ins.l != len(b16):
+            sh.counters['cs16_not_decoded(C01/C10)'] += 1
+            continue
+        rng = common.rng_for(seed, 'C04cs16', inst['text'])
+        for k in range(nstates):
+            regs, flags, hot = make_state(inst, rng, k)
+            cases.append(dict(code=b16, regs=[regs[r] for r in O.REGS], eflags=O.pack_eflags(flags), hot=hot, low=low_kind(inst, regs), cs16=True))
+            meta.append((inst, b16, ins, regs, flags, hot))
+    if not cases:
+        return
+    res = O.run_cases(cases)
+    for (inst, g, ins, regs, flags, hot), cpu in zip(meta, res):
+        ckey = ('cs16', inst['text'], tuple(sorted(regs.items())), tuple(sorted(flags.items())), hot)
+        if cpu['status'] == 0xfffc:
+            sh.counters['cs16_refused_by_host'] += 1
+            sh.case(ckey, False, cls=None)
+            continue
+        if cpu['status'] != 0:
+            sh.case(ckey, False, cls=None)
+            sh.counters['cs16_cpu_fault:%d' % cpu['status']] += 1
+            continue
+        if cpu['cs'] != 7 and not inst['extra'].get('farret'):
+            sh.counters['cs16_left_the_segment'] += 1
+            sh.case(ckey, False, cls=None)
+            continue
+        ok = compare_case(sh, inst, g, ins, regs, flags, hot, cpu, keyprefix='cs16/')
+        sh.counters['cs16_compared'] += 1 if ok else 0
+        sh.case(ckey, ok, cls=('%s/%d/%s/%s/cs16' % (inst['mn'], inst['size'], inst['form'], inst['cls'])) if ok else None)
+
+
 def run_part(sh, insts, nstates, seed, tier):
     from miasmx.arch.ia32_arch import x86mnemo
     from miasmx.core.bin_stream import bin_stream
@@ -739,6 +802,9 @@ def run_shard(shard, tier, seed):
     if shard[0] == 'mode16':
         run_mode16(sh, tier, seed)
         return sh
+    if shard[0] == 'cs16':
+        run_cs16(sh, shard[1], tier, seed)
+        return sh
     insts = [x for j, x in enumerate(instances()) if j % NPARTS == shard[1]]
     run_part(sh, insts, 24 if tier == 'quick' else 400, seed, tier)
     return sh
@@ -780,6 +846,14 @@ def replay(w):
         return []
     inst = inst[0]
     g = bytes.fromhex(w['code'])
+    if w.get('cs16'):
+        from miasmx.arch.ia32_reg import x86_afs
+        ins = x86mnemo.dis(bin_stream(Virt(O.CODE_ADDR, g), O.CODE_ADDR), {'opmode': x86_afs.u16, 'admode': x86_afs.u16})
+        regs, flags, hot = w['regs'], w['flags'], bytes.fromhex(w['hot'])
+        cpu = O.run_cases([dict(code=g, regs=[regs[r] for r in O.REGS], eflags=O.pack_eflags(flags), hot=hot, low=low_kind(inst, regs), cs16=True)])[0]
+        if cpu['status'] == 0 and ins is not None:
+            compare_case(sh, inst, g, ins, regs, flags, hot, cpu, keyprefix='cs16/')
+        return [(v['key'], v['detail']) for v in sh.violations]
     ins = x86mnemo.dis(bin_stream(Virt(O.CODE_ADDR, g), O.CODE_ADDR))
     regs, flags, hot = w['regs'], w['flags'], bytes.fromhex(w['hot'])
     cpu = O.run_cases([dict(code=g, regs=[regs[r] for r in O.REGS], eflags=O.pack_eflags(flags), hot=hot, low=low_kind(inst, regs))])[0]
